@@ -734,3 +734,37 @@ Proof.
         (conj (parse_int_local n) (conj (parse_float_local n)
         (conj (parse_max_parallel_local n) (parse_timeout_minutes_local n))))))).
 Qed.
+
+(* all value parsers at once *)
+Definition all_scalar_parsers_safe (n : snode) : Prop :=
+  (forall ae, np (check_string n ae)) /\ (forall ae, np (check_sequence n ae)) /\
+  np (parse_expression n) /\ np (may_parse_expression n) /\
+  (forall ae, np (parse_string n ae)) /\
+  (forall ae aee, np (parse_string_sequence n ae aee)) /\
+  (forall ae aee, np (parse_string_or_string_sequence n ae aee)) /\
+  np (parse_bool n) /\ np (parse_int n) /\ np (parse_float n) /\
+  np (parse_max_parallel n) /\ np (parse_timeout_minutes n).
+
+Lemma scalar_parsers_no_panic n : wf_node n -> all_scalar_parsers_safe n.
+Proof.
+  intros H. unfold all_scalar_parsers_safe. repeat split; intros.
+  - apply scalar_check_string_no_panic; exact H.
+  - apply scalar_check_sequence_no_panic; exact H.
+  - apply parse_expression_np.
+  - apply may_parse_expression_np.
+  - apply scalar_parse_string_no_panic; exact H.
+  - apply parse_string_sequence_np; exact H.
+  - apply parse_string_or_string_sequence_np; exact H.
+  - apply scalar_parse_bool_no_panic; exact H.
+  - apply scalar_parse_int_no_panic; exact H.
+  - apply scalar_parse_float_no_panic; exact H.
+  - apply scalar_parse_max_parallel_no_panic; exact H.
+  - apply scalar_parse_timeout_minutes_no_panic; exact H.
+Qed.
+
+(* with the old float parser the same statement is false *)
+Lemma scalar_parsers_no_panic_old_refuted :
+  exists n, wf_node n /\ ~ np (parse_timeout_minutes_old n).
+Proof.
+  exists nan_node. split; [exact nan_node_wf|]. intros H. eapply H. vm_compute. reflexivity.
+Qed.
